@@ -1,5 +1,5 @@
 """C09 — relativedelta(dt1, dt2) is the calendar difference that carries dt2 onto dt1."""
-import calendar, datetime
+import calendar, datetime, time
 import basecorr
 from props import rdlib as L
 
@@ -14,6 +14,9 @@ TRUSTED = [
     "naive-vs-aware raises TypeError in model and implementation alike",
 ]
 ASSUMPTIONS = [
+    "PEP 495 fold is irrelevant here and not modelled: for one shared tzinfo object (and for naive operands) CPython's < and - "
+    "work on the wall clock and ignore fold, the date->datetime coercion yields fold=0, and dt2 + delta ends in "
+    "`+ timedelta` (fold reset to 0); checked on every run (oracle clause `fold`, operands with fold=1 are generated)",
     "\"dt2 + relativedelta(dt1, dt2) equals dt1 exactly\" is read as the same calendar instant when exactly one operand is a "
     "date (Python's date == datetime is False by type): the date is promoted to midnight before comparing",
     "aware operands share the same tzinfo object (the property's 'common zone'); two different tzinfo objects are outside the model",
@@ -25,9 +28,14 @@ RULE = ("seeded random ordered pairs of date / naive / aware(common zone) operan
         "(no TypeError)")
 
 
+WATCHDOG_S = 5.0      # a normal call takes ~10 us; the overshoot loop is proved to run at most once
+SLOW_S = 0.25         # a call slower than this is counted (and reported in the evidence)
+STOP_AFTER = 60       # failing inputs are what the search is for: stop sweeping once this many are in hand
+
+
 def impl_diff(a, b):
     from dateutil.relativedelta import relativedelta
-    return L.run(lambda: relativedelta(a, b), L.rd_wire)
+    return L.run(lambda: relativedelta(a, b), L.rd_wire, watchdog=WATCHDOG_S)
 
 
 def g_pair(rng):
@@ -72,6 +80,7 @@ def correspondence(ctx):
     rng = ctx.subrng("corr")
     n = ctx.budget(50000, 400000)
     reqs, exp = [], []
+    slow = 0
     for i in range(n):
         a, b = g_pair(rng)
         if L.kind_of(a) == "a?" or L.kind_of(b) == "a?":
@@ -79,8 +88,16 @@ def correspondence(ctx):
         if L.kind_of(a)[0] == "a" and L.kind_of(b)[0] == "a" and a.tzinfo is not b.tzinfo:
             ctx.count("corr_skipped_different_zones")
             continue
+        t0 = time.time()
         r = impl_diff(a, b)
+        if time.time() - t0 > SLOW_S:
+            ctx.count("corr_slow_calls")
+            slow += 1
         reqs.append("rd.diff %s %s" % (L.t_wire(a), L.t_wire(b))); exp.append(r)
+        if r == "hang" or slow >= STOP_AFTER:
+            # a hang / pathologically slow constructor: enough for the failing-input search, do not spend the budget here
+            ctx.note("correspondence generation stopped early after %d cases: %s" % (i + 1, "hang" if r == "hang" else "slow calls"))
+            break
         ctx.count("corr_diff_" + (r.split()[1] if r.startswith("err") else "ok"))
         if i % 4 == 0:
             reqs.append("rd.diffn 1 %s %s" % (L.t_wire(a), L.t_wire(b))); exp.append(r)
@@ -123,8 +140,14 @@ def as_cmp(x, like):
 def check_pair(ctx, a, b):
     from dateutil.relativedelta import relativedelta
     case = {"a": L.t_wire(a), "b": L.t_wire(b)}
+    t0 = time.time()
     try:
-        d = relativedelta(a, b)
+        d = L.watched(lambda: relativedelta(a, b), WATCHDOG_S)
+    except L.Hang:
+        ctx.case((case["a"], case["b"]), nontrivial=False); ctx.count("oracle_hang")
+        ctx.violation("relativedelta(a, b) did not return within %.0f s (the overshoot loop does not terminate?)" % WATCHDOG_S,
+                      dict(case, law="terminates"))
+        return
     except TypeError:
         mixed = (isinstance(a, datetime.datetime) and a.tzinfo is not None) != (isinstance(b, datetime.datetime) and b.tzinfo is not None)
         ctx.case((case["a"], case["b"]), nontrivial=False); ctx.count("oracle_TypeError")
@@ -136,6 +159,10 @@ def check_pair(ctx, a, b):
         ctx.violation("relativedelta(a, b) raised %s" % type(ex).__name__, case)
         return
     ctx.case((case["a"], case["b"])); ctx.count("oracle_ok")
+    if time.time() - t0 > SLOW_S:
+        ctx.count("oracle_slow_calls")
+        ctx.violation("relativedelta(a, b) took %.2f s: the overshoot loop ran far more than once" % (time.time() - t0),
+                      dict(case, law="terminates"))
     # inverse law
     try:
         back = b + d
@@ -164,6 +191,19 @@ def check_pair(ctx, a, b):
                       % (M, s0, s1), case)
     if M:
         ctx.count("oracle_month_part_nonzero")
+    # PEP 495 fold: ignored by <, - for one shared tzinfo object (and for naive operands), reset by + timedelta
+    if isinstance(a, datetime.datetime):
+        af = a.replace(fold=1 - a.fold)
+        try:
+            df = relativedelta(af, b)
+            same = L.rd_wire(df) == L.rd_wire(d)
+        except Exception:
+            same = False
+        ctx.count("fold_flip_checked")
+        if not same:
+            ctx.violation("flipping dt1.fold changes relativedelta(dt1, dt2)", dict(case, law="fold"))
+        if isinstance(back, datetime.datetime) and back.fold != 0:
+            ctx.violation("dt2 + relativedelta(dt1, dt2) has fold=%d" % back.fold, dict(case, law="fold"))
     if a2 == b2:
         ctx.count("oracle_equal_instants")
         if d:
@@ -187,6 +227,9 @@ def oracle(ctx):
         if L.kind_of(a)[0] == "a" and L.kind_of(b)[0] == "a" and a.tzinfo is not b.tzinfo:
             continue
         check_pair(ctx, a, b)
+        if len(ctx.violations) >= STOP_AFTER or ctx.hist.get("oracle_hang", 0) >= 5:
+            ctx.note("oracle sweep stopped early: %d failing inputs in hand" % len(ctx.violations))
+            return
     # relativedelta(x, x)
     for _ in range(ctx.budget(500, 20000)):
         x = L.g_temporal(rng)
@@ -203,6 +246,8 @@ def oracle(ctx):
             for b in days:
                 check_pair(ctx, a, b)
                 ctx.count("grid_pairs")
+            if len(ctx.violations) >= STOP_AFTER:
+                return
     for a, b in pairs[:4]:
         ctx.sample({"a": str(a), "b": str(b), "impl": impl_diff(a, b)})
 
